@@ -25,7 +25,7 @@ func (x *exec) computeFrame(entry *State, env *Env) *frameInfo {
 	con := x.con
 	fi := &frameInfo{allowed: map[string][]target{}, entry: entry}
 	for _, m := range con.Modifies {
-		if m.Text == "*" {
+		if m.Text == "*" || m.Text == "$client" {
 			fi.star = true
 			return fi
 		}
